@@ -1,0 +1,60 @@
+/*
+ * Atree - Scalable Arrays and Ordered Maps
+ *
+ * Copyright Flow Foundation
+ *
+ * Licensed under the Apache License, Version 2.0 (the "License");
+ * you may not use this file except in compliance with the License.
+ * You may obtain a copy of the License at
+ *
+ *   http://www.apache.org/licenses/LICENSE-2.0
+ *
+ * Unless required by applicable law or agreed to in writing, software
+ * distributed under the License is distributed on an "AS IS" BASIS,
+ * WITHOUT WARRANTIES OR CONDITIONS OF ANY KIND, either express or implied.
+ * See the License for the specific language governing permissions and
+ * limitations under the License.
+ */
+
+//go:build verif
+
+package atree
+
+//@ # ---------------------------------------------------------------- encoders: bytes written = reported size (C06)
+//@ # wbytes: number of bytes handed to the encoder's writer / CBOR stream so far (ghost event counter)
+//@ # xbytes: the part of wbytes written by the extra-data encoders (root extra data, shared inlined extra data); the property does
+//@ #         not count these sections
+//@ ghost wbytes : int
+//@ ghost xbytes : int
+
+//@ iface Writer.Write(p) (n, err)
+//@   ghostdef wbytes == old(wbytes) + ite(err == nil, len(p), 0)
+//@   ensures err == nil ==> n == len(p)
+//@   modifies ghost.wbytes, alloc
+
+//@ # extra-data sections: whatever they write is counted as extra-data bytes
+//@ func (a *ArrayExtraData) Encode(enc, encodeTypeInfo) (err)  serves C06
+//@   trusted "definition of the counter xbytes: every byte written by an extra-data encoder is an extra-data byte"
+//@   ghostdef wbytes - old(wbytes) == xbytes - old(xbytes)
+//@   modifies ghost.wbytes, ghost.xbytes, alloc
+
+//@ func (m *MapExtraData) Encode(enc, encodeTypeInfo) (err)  serves C06
+//@   trusted "definition of the counter xbytes: every byte written by an extra-data encoder is an extra-data byte"
+//@   ghostdef wbytes - old(wbytes) == xbytes - old(xbytes)
+//@   modifies ghost.wbytes, ghost.xbytes, alloc
+
+//@ # array index slab: 2 (head) + 8 (address) + 2 (child count) + 14 per child = header.size; plus the extra-data section when root
+//@ func (a *ArrayMetaDataSlab) Encode@bytes(enc) (err)  serves C06
+//@   requires enc != nil && a.header.size == 12 + 14 * len(a.childrenHeaders)
+//@   assume a.header.size <= 65535 && (forall k :: 0 <= k && k < len(a.childrenHeaders) ==> a.childrenHeaders[k].size <= 65535) because "slab sizes are bounded by the slab size limit (C05), which fits 16 bits"
+//@   ensures[C06] err == nil ==> (wbytes - old(wbytes)) - (xbytes - old(xbytes)) == a.header.size
+//@   modifies Encoder.Scratch, ghost.wbytes, ghost.xbytes, alloc
+//@   loop 1: invariant wbytes - old(wbytes) - (xbytes - old(xbytes)) == 12 + 14 * i && 0 <= i && i <= len(a.childrenHeaders)
+
+//@ # map index slab: 2 + 8 + 2 + 18 per child
+//@ func (m *MapMetaDataSlab) Encode@bytes(enc) (err)  serves C06
+//@   requires enc != nil && m.header.size == 12 + 18 * len(m.childrenHeaders)
+//@   assume m.header.size <= 65535 && (forall k :: 0 <= k && k < len(m.childrenHeaders) ==> m.childrenHeaders[k].size <= 65535) because "slab sizes are bounded by the slab size limit (C05), which fits 16 bits"
+//@   ensures[C06] err == nil ==> (wbytes - old(wbytes)) - (xbytes - old(xbytes)) == m.header.size
+//@   modifies Encoder.Scratch, ghost.wbytes, ghost.xbytes, alloc
+//@   loop 1: invariant wbytes - old(wbytes) - (xbytes - old(xbytes)) == 12 + 18 * i && 0 <= i && i <= len(m.childrenHeaders)
